@@ -122,9 +122,44 @@ func mkCase(ctx xctx, n *xnode, kind string) xcase {
 		// (the tree's "await" then is not generated in this context; see known finding probe)
 		ctx = xContexts[0]
 	}
-	r := &xrender{}
+	r := &xrender{parens: ctx.parensMode()}
 	body := xCtxRender(ctx, r, n)
 	return xcase{code: xProgram(body, kind), kind: kind, label: ctx.name}
+}
+
+// mkCaseParens: like mkCase with a parenthesisation mode (see xrender.parens)
+func mkCaseParens(ctx xctx, n *xnode, kind string, parens int) xcase {
+	r := &xrender{parens: parens}
+	body := xCtxRender(ctx, r, n)
+	return xcase{code: xProgram(body, kind), kind: kind, label: ctx.name}
+}
+
+// segDepth3Parens: segDepth3 under a parenthesisation mode
+func segDepth3Parens(ctx xctx, opl []xop, parens int) xseg {
+	base := segDepth3(ctx, opl)
+	type ps struct {
+		p    *xop
+		slot int
+	}
+	var pss []ps
+	for i := range opl {
+		for s := 0; s < opl[i].nE; s++ {
+			pss = append(pss, ps{&opl[i], s})
+		}
+	}
+	np, nk := uint64(len(pss)), uint64(len(opl))
+	return xseg{fmt.Sprintf("depth3-parens%d", parens), base.size, func(i uint64) xcase {
+		ch := &opl[i%nk]
+		i /= nk
+		p := pss[i%np]
+		g := pss[i/np]
+		kids := make([]*xnode, p.p.nE)
+		kids[p.slot] = opNode(ch)
+		mid := opNode(p.p, kids...)
+		gk := make([]*xnode, g.p.nE)
+		gk[g.slot] = mid
+		return mkCaseParens(ctx, opNode(g.p, gk...), "", parens)
+	}}
 }
 
 // segCtxOp: every context x every op (default leaves).
@@ -463,10 +498,16 @@ func runC01(c *Check) {
 	if c.Tier == "quick" {
 		sp.segs = append(sp.segs, segPairs("return*parent*slot*child(reduced)", pickCtx("return"), concatOps(all, xAsyncGen, xGen), red))
 		sp.segs = append(sp.segs, segPairs("spine-ctx*reduced*slot*reduced", pickCtx("stmt", "for-init", "arrow-body-noparen", "new-callee", "class-extends", "for-of", "label", "stmt-after-expr"), red, red))
+		// the same pairs without generated parentheses (esbuild remembers some source parentheses, so fully
+		// parenthesised inputs never exercise the printer's own decisions); programs V8 rejects are skipped
+		sp.segs = append(sp.segs, segPairs("bare-ctx*reduced*slot*reduced", withParens(pickCtx("return", "stmt", "for-var-init", "arrow-body-noparen"), 2), red, red))
 	} else {
 		sp.segs = append(sp.segs, segPairs("return*parent*slot*child", pickCtx("return"), concatOps(all, xAsyncGen, xGen), concatOps(all, xAsyncGen, xGen)))
 		sp.segs = append(sp.segs, segPairs("spine-ctx*parent*slot*reduced", pickCtx("stmt", "for-init", "for-var-init", "arrow-body-noparen", "new-callee", "class-extends", "for-of", "label", "stmt-after-expr", "tag", "exponent-left", "call-callee"), all, red))
 		sp.segs = append(sp.segs, segDepth3(pickCtx("return")[0], red))
+		sp.segs = append(sp.segs, segPairs("bare-ctx*parent*slot*reduced", withParens(pickCtx("return", "stmt", "for-init", "for-var-init", "arrow-body-noparen", "new-callee", "class-extends", "for-of", "exponent-left", "call-callee"), 2), all, red))
+		sp.segs = append(sp.segs, segPairs("bare-top-ctx*parent*slot*reduced", withParens(pickCtx("return", "stmt", "for-init", "for-var-init", "arrow-body-noparen"), 1), all, red))
+		sp.segs = append(sp.segs, segDepth3Parens(pickCtx("return")[0], red, 2))
 	}
 	x.runSpace(sp)
 	x.runBatch(0, []xcase{{code: "globalThis.__f = async function(H, a, b, c) { return new (class { x = (await (H.p(1, a))) })().x; };", kind: "async"},
